@@ -395,6 +395,70 @@ def main(argv):
                 prev = D
             if failed:
                 continue
+        # ================= copies of arcs land where the transformation puts them
+        # one arc, selected as an arc, copied by translation / rotation / mirror: the saved drawing has to hold the original and the image;
+        # the image of the counter-clockwise arc P0 -> P1 under a rotation or translation T is T(P0) -> T(P1), under a mirror M it is
+        # M(P1) -> M(P0) (a reflection reverses the sense), with the same angle; its mid point is the transformed mid point
+        narc = 18 if ck.tier == "quick" else 240
+        d = os.path.join(work, "arcs")
+        os.makedirs(d)
+        lines, cases = [], []
+        for t in range(narc):
+            kind = "meh"[t % 3]
+            pre = PRE[kind]
+            a = (rng.randint(-8, 8) * 0.5, rng.randint(-8, 8) * 0.5)
+            b = (a[0] + rng.choice([1.0, 2.0, -1.5, 0.5]), a[1] + rng.choice([1.0, -2.0, 0.75]))
+            ang = rng.choice([30.0, 60.0, 90.0, 135.0, 170.0])
+            ca, cb = complex(*a), complex(*b)
+            # centre and mid point of the arc a -> b (counter-clockwise, angle ang)
+            R = abs(cb - ca) / (2 * math.sin(math.radians(ang) / 2))
+            cen = (ca + cb) / 2 + 1j * (cb - ca) / abs(cb - ca) * R * math.cos(math.radians(ang) / 2)
+            mid = cen + (ca - cen) * complex(math.cos(math.radians(ang) / 2), math.sin(math.radians(ang) / 2))
+            op = ["mirror", "copyrotate", "copytranslate"][(t // 3) % 3]
+            if op == "mirror":
+                p0 = complex(rng.randint(-6, 6), rng.randint(-6, 6)); p1 = p0 + complex(rng.choice([1, 0, 2, -1]), rng.choice([1, 2, -3]))
+                u = (p1 - p0) / abs(p1 - p0)
+                T = lambda z, p0=p0, u=u: p0 + u * ((z - p0) / u).conjugate()
+                cmd = "%smirror(%s,%s,%s,%s,3)" % (pre, n17(p0.real), n17(p0.imag), n17(p1.real), n17(p1.imag))
+                want = (T(cb), T(ca))
+            elif op == "copyrotate":
+                c0 = complex(rng.randint(-6, 6), rng.randint(-6, 6)); th = rng.choice([90.0, 45.0, 120.0, -30.0])
+                T = lambda z, c0=c0, th=th: c0 + (z - c0) * complex(math.cos(math.radians(th)), math.sin(math.radians(th)))
+                cmd = "%scopyrotate(%s,%s,%s,1,3)" % (pre, n17(c0.real), n17(c0.imag), n17(th))
+                want = (T(ca), T(cb))
+            else:
+                dz = complex(rng.choice([3.0, -2.5, 0.5]), rng.choice([4.0, -1.0, 0.25]))
+                T = lambda z, dz=dz: z + dz
+                cmd = "%scopytranslate(%s,%s,1,3)" % (pre, n17(dz.real), n17(dz.imag))
+                want = (T(ca), T(cb))
+            sc = ["newdocument(%d)" % DOC[kind], "%saddnode(%s,%s)" % (pre, n17(a[0]), n17(a[1])), "%saddnode(%s,%s)" % (pre, n17(b[0]), n17(b[1])),
+                  "%saddarc(%s,%s,%s,%s,%s,5)" % (pre, n17(a[0]), n17(a[1]), n17(b[0]), n17(b[1]), n17(ang)),
+                  "%sselectarcsegment(%s,%s)" % (pre, n17(mid.real), n17(mid.imag)), cmd, '%ssaveas("a%03d%s")' % (pre, t, femmio.EXT[kind])]
+            lines += sc
+            cases.append((kind, op, sc, (ca, cb), want, ang, T(mid)))
+        open(os.path.join(d, "s.lua"), "w").write("\n".join(lines) + "\n")
+        subprocess.run([os.path.join(build, "cfemm", "bin", "femmcli"), "--lua-script=s.lua"], cwd=d, stdout=subprocess.PIPE, stderr=subprocess.STDOUT,
+                       text=True, timeout=600, errors="replace")
+        for t, (kind, op, sc, orig, want, ang, tmid) in enumerate(cases):
+            f = os.path.join(d, "a%03d%s" % (t, femmio.EXT[kind]))
+            ck.case(("arc-copy", t, op, ang), nontrivial=True)
+            stats["arc_copies_checked"] = stats.get("arc_copies_checked", 0) + 1
+            if not os.path.exists(f):
+                ck.violation("edit-crash:arc-copy", "femmcli did not save the drawing after %s of an arc" % op, dict(script="\n".join(sc)))
+                continue
+            D = load(f)
+            Pn = [complex(n[0], n[1]) for n in D["nodes"]]
+            arcs = [(Pn[a_[0]], Pn[a_[1]], a_[2]) for a_ in D["arcs"] if a_[0] < len(Pn) and a_[1] < len(Pn)]
+            has = lambda w: any(abs(x[0] - w[0]) < 1e-9 and abs(x[1] - w[1]) < 1e-9 and abs(x[2] - ang) < 1e-9 for x in arcs)
+            if len(arcs) > 2:
+                # the image crosses the original: both are split at the crossing (the clause on crossings, examined for lines above)
+                stats["arc_copies_split_by_crossing"] = stats.get("arc_copies_split_by_crossing", 0) + 1
+                continue
+            if not (has(orig) and has(want)):
+                ck.violation("copy-lands:arc:" + op, "%s of the %g degree arc (%g, %g) -> (%g, %g): the saved drawing holds the arcs %s; the image is the arc "
+                             "(%.12g, %.12g) -> (%.12g, %.12g) through (%.12g, %.12g)" % (op, ang, orig[0].real, orig[0].imag, orig[1].real, orig[1].imag,
+                             [("(%.9g, %.9g) -> (%.9g, %.9g), %g" % (x[0].real, x[0].imag, x[1].real, x[1].imag, x[2])) for x in arcs],
+                             want[0].real, want[0].imag, want[1].real, want[1].imag, tmid.real, tmid.imag), dict(script="\n".join(sc)))
     finally:
         shutil.rmtree(work, ignore_errors=True)
     ck.notes["input_distribution"] = stats
